@@ -37,6 +37,10 @@ TREE_C = {"k": "dict", "keys": ["a", "b"], "ch": [L(4, 2), {"k": "tuple", "ch": 
 TREE_S = {"k": "dict", "keys": ["a"], "ch": [L(3, 4)]}
 
 
+def bf16(tree):
+  return c07.with_dtype(tree, "bfloat16")
+
+
 def base_configs():
   """(name, opt, cfg, tree)"""
   fd = {"block_size": 8, "compression_rank": 2, "frequent_directions": True,
@@ -63,6 +67,17 @@ def base_configs():
                                 "decay_preconditioning_compute_steps": True,
                                 "end_preconditioning_compute_steps": 4,
                                 "preconditioning_compute_steps": 2}, TREE_C),
+      # bfloat16 parameters (the state mixes parameter-dtype, float32 and int8/int16 leaves)
+      ("ds-full-bf16", "ds", {"block_size": 4, "graft_type": 3, "preconditioning_compute_steps": 2,
+                              "param_dtype": "bfloat16"}, bf16(TREE_A)),
+      ("ds-int16-quantized-pmap-bf16", "ds", {"block_size": 4, "mode": "pmap",
+                                              "best_effort_memory_usage_reduction": True,
+                                              "param_dtype": "bfloat16"}, bf16(TREE_A)),
+      ("sm3-bf16", "sm3", {"param_dtype": "bfloat16"}, bf16(TREE_C)),
+      ("tf-shampoo-bf16", "tf", {"second_order": {"shampoo": {"block_size": 2}, "merge_dims": 4},
+                                 "graft": {"grafting_type": "rmsprop",
+                                           "skip_preconditioning_rank1": False},
+                                 "param_dtype": "bfloat16"}, bf16(TREE_A)),
       ("sm3", "sm3", {"weight_decay": 0.01}, TREE_C),
       ("sm3-beta2-1", "sm3", {"beta2": 1.0, "normalize_grads": True, "lr_callable": True}, TREE_B),
       ("tf-shampoo", "tf", {"second_order": {"shampoo": {"block_size": 2, "update_statistics_freq": 2,
@@ -94,11 +109,13 @@ def gen_cases(ctx):
     cases.append(dict(name=name, opt=opt, cfg=cfg, tree=tree, T=T, exec="jit", emit_blob=True))
   # eager mode (Python code of update runs every step): small trees, fewer crash points
   eager = [c for c in base_configs() if c[0] in (
-      "ds-full", "ds-compressed", "ds-fd-reuse", "sm3", "tf-shampoo", "tf-sketchy") or not quick]
+      "ds-full", "ds-compressed", "ds-fd-reuse", "sm3", "tf-shampoo", "tf-sketchy", "ds-full-bf16",
+      "sm3-bf16") or not quick]
   for name, opt, cfg, tree in eager:
     if cfg.get("mode") in ("pmap",):
       continue
     small = TREE_S if opt == "ds" and "compression_rank" not in cfg else tree
+    small = c07.with_dtype(small, cfg.get("param_dtype", "float32"))
     Te = 4 if quick else 6
     cases.append(dict(name=name + "/eager", opt=opt, cfg=cfg, tree=small, T=Te, exec="eager",
                       crash_points=[0, 1, 2, Te] if quick else None, interleave=not quick))
